@@ -7,54 +7,118 @@ import TboxModel.Util
 import TboxModel.C02.Model
 open Tbox.Util Tbox.C02
 
-/-- isEnabled() vector; objects owned by the TimerPool (ids in `pool`) show `p` while armed, `x` once gone -/
-def bitsOf (s : State) (pool : List Nat := []) : String :=
+/-- isEnabled() vector; in a TimerPool case (`poolMode`) every object is owned by the pool and shows `p`
+while armed, `x` once gone -/
+def bitsOf (s : State) (poolMode : Bool := false) : String :=
   if s.nObjs = 0 then "-" else
   String.ofList ((List.range s.nObjs).map fun j =>
     let o := s.obj j
-    if pool.contains j then (if o.alive && o.inited && o.enabled then 'p' else 'x')
+    if poolMode then (if o.alive && o.inited && o.enabled then 'p' else 'x')
     else if !o.alive then 'x' else if o.inited && o.enabled then '1' else '0')
 
-def parseAct (w : String) : Option Act :=
-  match w.toList with
-  | 'i' :: rest =>
-      match (String.ofList rest).splitOn ":" with
-      | [j, ms, m] => do
-          let j ← j.toNat?; let ms ← ms.toNat?
-          if ms < 1 then none else
-          if m == "o" then some (.init j ms true) else if m == "p" then some (.init j ms false) else none
-      | _ => none
-  | 'e' :: rest => (String.ofList rest).toNat?.map .enable
-  | 'd' :: rest => (String.ofList rest).toNat?.map .disable
-  | 'x' :: rest => (String.ofList rest).toNat?.map .destroy
+def takeNat (cs : List Char) : Option (Nat × List Char) :=
+  let ds := cs.takeWhile Char.isDigit
+  if ds.isEmpty || ds.length > 18 then none else (String.ofList ds).toNat?.map fun n => (n, cs.drop ds.length)
+
+/- callback scripts: items separated by `,`; a nested script (of a timer created inside the callback)
+is written in brackets.
+  plain TimerEvent case: e<j> d<j> x<j> i<j>:<ms>:<o|p>  n[<script>] (newTimerEvent + setCallback)
+  TimerPool case:        c<k> (cancel)  a<ms>[<script>] (doAfter)  v<ms>[<script>] (doEvery)  z (cleanup)
+`x<self>` (destroying the timer whose callback is running) is outside the property: rejected at top
+level; nested scripts, whose own id is only known at run time, may not contain `x` at all. -/
+mutual
+partial def pItems (cs : List Char) (self : Option Nat) (pool : Bool) : Option (List Act × List Char) :=
+  match cs with
+  | [] => some ([], [])
+  | ']' :: _ => some ([], cs)
+  | _ => do
+    let (a, rest) ← pItem cs self pool
+    match rest with
+    | ',' :: rest' =>
+      match rest' with
+      | [] => none
+      | ']' :: _ => none
+      | _ => do
+        let (as, rest'') ← pItems rest' self pool
+        pure (a :: as, rest'')
+    | _ => pure ([a], rest)
+
+partial def pNested (cs : List Char) (pool : Bool) : Option (List Act × List Char) :=
+  match cs with
+  | '[' :: rest => do
+    let (as, rest') ← pItems rest none pool
+    match rest' with
+    | ']' :: rest'' => pure (as, rest'')
+    | _ => none
   | _ => none
 
-/-- `c<k>` = TimerPool::cancel of pool timer k: disable it and (deferred in the code) delete it -/
-def parseItem (item : String) (self : Nat) (poolScript : Bool) : Option (List Act) :=
-  match item.toList with
-  | 'c' :: rest => if poolScript then (String.ofList rest).toNat?.map fun k => [.disable k, .destroy k] else none
-  | _ => if poolScript then none else do
-    let a ← parseAct item
-    match a with
-    | .destroy j => if j = self then none else some [a]
-    | _ => some [a]
+partial def pItem (cs : List Char) (self : Option Nat) (pool : Bool) : Option (Act × List Char) :=
+  match cs with
+  | 'c' :: rest => if !pool then none else do let (k, r) ← takeNat rest; pure (.cancel k, r)
+  | 'z' :: rest => if !pool then none else pure (.cleanup, rest)
+  | 'a' :: rest => if !pool then none else do
+      let (ms, r) ← takeNat rest
+      if ms < 1 ∨ ms > 100000 then none else
+      let (sc, r') ← pNested r pool
+      pure (.doAfter ms sc, r')
+  | 'v' :: rest => if !pool then none else do
+      let (ms, r) ← takeNat rest
+      if ms < 1 ∨ ms > 100000 then none else
+      let (sc, r') ← pNested r pool
+      pure (.doEvery ms sc, r')
+  | 'n' :: rest => if pool then none else do
+      let (sc, r') ← pNested rest pool
+      pure (.newObj sc, r')
+  | 'e' :: rest => if pool then none else do let (k, r) ← takeNat rest; pure (.enable k, r)
+  | 'd' :: rest => if pool then none else do let (k, r) ← takeNat rest; pure (.disable k, r)
+  | 'x' :: rest => if pool then none else do
+      let (k, r) ← takeNat rest
+      match self with
+      | none => none
+      | some me => if k = me then none else pure (.destroy k, r)
+  | 'i' :: rest => if pool then none else do
+      let (k, r) ← takeNat rest
+      match r with
+      | ':' :: r1 => do
+        let (ms, r2) ← takeNat r1
+        if ms < 1 then none else
+        match r2 with
+        | ':' :: 'o' :: r3 => pure (.init k ms true, r3)
+        | ':' :: 'p' :: r3 => pure (.init k ms false, r3)
+        | _ => none
+      | _ => none
+  | _ => none
+end
 
 def parseScript (w : String) (self : Nat) (poolScript : Bool := false) : Option (List Act) :=
   if w == "-" then some [] else
-  ((w.splitOn ",").mapM fun item => parseItem item self poolScript).map List.flatten
+  if w.isEmpty then none else
+  match pItems w.toList (some self) poolScript with
+  | some (as, []) => some as
+  | _ => none
+
+def parseAct (w : String) : Option Act :=
+  match pItem w.toList none false with
+  | some (a, []) => some a
+  | _ => none
 
 inductive POp where
   | new (sc : List Act) | api (a : Act) | adv (d : Nat) | engine (e : String) | bad
   | pnew (after : Bool) (ms : Nat) (sc : List Act) | pcancel (k : Nat) | pcleanup
+  | pat (tp : Int) (sc : List Act) | wall (d : Int)
 
 def parseOp (s : State) (ws : List String) : POp :=
   match ws with
   | ["engine", e] => if (e == "epoll" || e == "select") && s.nObjs == 0 then .engine e else .bad
   | ["new", sc] => match parseScript sc s.nObjs with | some l => .new l | none => .bad
-  | ["pafter", ms, sc] => match ms.toNat?, parseScript sc (s.nObjs + 1000000) true with
+  | ["pafter", ms, sc] => match ms.toNat?, parseScript sc 0 true with
       | some n, some l => if 1 ≤ n ∧ n ≤ 100000 then .pnew true n l else .bad | _, _ => .bad
-  | ["pevery", ms, sc] => match ms.toNat?, parseScript sc (s.nObjs + 1000000) true with
+  | ["pevery", ms, sc] => match ms.toNat?, parseScript sc 0 true with
       | some n, some l => if 1 ≤ n ∧ n ≤ 100000 then .pnew false n l else .bad | _, _ => .bad
+  | ["pat", tp, sc] => match tp.toNat?, parseScript sc 0 true with
+      | some n, some l => if n ≤ 100000000 then .pat (Int.ofNat n) l else .bad | _, _ => .bad
+  | ["wall", d] => match intOfString? d with
+      | some n => if -100000 ≤ n ∧ n ≤ 100000 then .wall n else .bad | none => .bad
   | ["pcancel", k] => match k.toNat? with | some k => .pcancel k | none => .bad
   | ["pcleanup"] => .pcleanup
   | ["adv", d] => match d.toNat? with | some n => if n ≤ 100000 then .adv n else .bad | none => .bad
@@ -71,8 +135,10 @@ structure TAcc where
   tags : List String := []
   err : Option String := none
   nops : Nat := 0
-  pool : List Nat := []      -- object ids owned by the TimerPool
   mode : Nat := 0            -- 0 undecided, 1 plain TimerEvent case, 2 TimerPool case
+  wall : Int := 0            -- system clock (ms since the harness's wall epoch); `adv` moves both clocks, `wall` only this one
+
+def TAcc.bits (a : TAcc) (s : State) : String := bitsOf s (a.mode == 2)
 
 def expectLine (a : TAcc) (want : String) (what : String) : TAcc :=
   match a.tl with
@@ -80,7 +146,19 @@ def expectLine (a : TAcc) (want : String) (what : String) : TAcc :=
                  else { a with err := some s!"op#{a.nops} {what}: impl=[{l}] model=[{want}]" }
   | [] => { a with err := some s!"op#{a.nops} {what}: impl=<missing> model=[{want}]" }
 
-/-- consume the `F j en=…` lines of one pass -/
+/-- return values of the calls a callback made, as the harness prints them (`R 101`, `R -` if none);
+the tail of the doAfter wrapper (`pfree`) is not a user call -/
+def retsLine (script : List Act) (rets : List Bool) : String :=
+  let vis := (script.zip rets).filter fun p => match p.1 with | .pfree _ => false | _ => true
+  if vis.isEmpty then "R -" else "R " ++ String.ofList (vis.map fun p => if p.2 then '1' else '0')
+
+def actTags : List Act → List String
+  | [] => []
+  | a :: as => (match a with
+      | .doAfter _ _ => ["cb-doAfter"] | .doEvery _ _ => ["cb-doEvery"] | .cancel _ => ["cb-cancel"]
+      | .cleanup => ["cb-cleanup"] | .newObj _ => ["cb-new"] | _ => []) ++ actTags as
+
+/-- consume the `F j en=…` / `R …` lines of one pass -/
 partial def firePass (a : TAcc) (seen : List Nat) : TAcc :=
   match a.tl with
   | l :: rest =>
@@ -90,7 +168,7 @@ partial def firePass (a : TAcc) (seen : List Nat) : TAcc :=
       | none => { a with err := some s!"op#{a.nops} unparsable callback line [{l}]" }
       | some j =>
         match a.s.timers.find? (fun r => r.owner == j) with
-        | none => { a with err := some s!"op#{a.nops} callback on timer {j} which is not armed (disabled, destroyed, one-shot already fired, or never enabled)" }
+        | none => { a with err := some s!"op#{a.nops} callback on timer {j} which is not armed (disabled, destroyed, cancelled, one-shot already fired, or never enabled)" }
         | some r =>
           if !canFire a.s r then
             let t := a.s.passNow.getD 0
@@ -99,28 +177,38 @@ partial def firePass (a : TAcc) (seen : List Nat) : TAcc :=
           else
             -- isEnabled() vector at callback entry: a one-shot already reports disabled
             let sEntry := if r.oneshot then a.s.setObj j { a.s.obj j with enabled := false } else a.s
-            let want := "en=" ++ bitsOf sEntry a.pool
+            let want := "en=" ++ a.bits sEntry
             if en != want then { a with err := some s!"op#{a.nops} at entry of callback {j}: impl=[{en}] model=[{want}]" }
             else
               let ties := (a.s.timers.filter fun q => q.expired == r.expired).length
               let nBefore := a.s.timers.length
-              let s' := fire a.s r
+              let script := (a.s.obj j).script
+              let (s', rets) := fireR a.s r          -- = (fire a.s r, return values): theorem fireR_fst
               let tags := (if ties > 1 then ["tie"] else []) ++ (if seen.contains j then ["catchup"] else [])
                 ++ (if a.s.passNow.getD 0 > r.expired then ["late"] else [])
                 ++ (if s'.timers.length + (if r.oneshot then 1 else 0) < nBefore then ["cb-removed-other"] else [])
                 ++ (if s'.timers.length + (if r.oneshot then 1 else 0) > nBefore then ["cb-armed-other"] else [])
-              firePass { a with s := s', tl := rest, tags := a.tags ++ tags } (j :: seen)
+                ++ actTags script
+                ++ (if script.any (fun x => match x with | .cancel k => k == j | _ => false) then ["cb-cancel-self"] else [])
+              let a1 := expectLine { a with s := s', tl := rest, tags := a.tags ++ tags } (retsLine script rets)
+                          s!"results of the calls made by callback {j}"
+              if a1.err.isSome then a1 else firePass a1 (j :: seen)
     | _ => a
   | [] => a
+
+def boolStr (b : Bool) : String := if b then "1" else "0"
 
 def stepOp (a : TAcc) (line : String) : TAcc :=
   if a.err.isSome then a else
   let a := { a with nops := a.nops + 1 }
   let op := parseOp a.s (words line)
-  let isPool := match op with | .pnew _ _ _ => true | .pcancel _ => true | .pcleanup => true | _ => false
+  let isPool := match op with
+    | .pnew _ _ _ => true | .pcancel _ => true | .pcleanup => true | .pat _ _ => true | .wall _ => true | _ => false
   let isPlain := match op with | .new _ => true | .api _ => true | _ => false
   let op := if (isPool && a.mode == 1) || (isPlain && a.mode == 2) then POp.bad else op
-  let op := match words line with   -- a malformed plain/pool op in the wrong kind of case is still just bad-op
+  -- doAt: only time points 1 … 100000 ms ahead of the system clock are in the model
+  let op := match op with
+    | .pat tp _ => if 1 ≤ tp - a.wall ∧ tp - a.wall ≤ 100000 then op else POp.bad
     | _ => op
   let a := match op with
     | .bad => a
@@ -130,28 +218,28 @@ def stepOp (a : TAcc) (line : String) : TAcc :=
   | .engine e => expectLine { a with tags := a.tags ++ [e] } ("P engine=" ++ e) "engine"
   | .new sc =>
       let s' := step a.s (.newObj sc)
-      expectLine { a with s := s' } ("P ret=1 en=" ++ bitsOf s' a.pool) "new"
+      expectLine { a with s := s' } ("P ret=1 en=" ++ a.bits s') "new"
   | .pnew after ms sc =>
-      -- TimerPool::doAfter / doEvery = newTimerEvent + initialize + setCallback + enable;
-      -- the doAfter wrapper frees the token and deletes the timer after the user callback
-      let j := a.s.nObjs
-      let s1 := step a.s (.newObj (if after then sc ++ [.destroy j] else sc))
-      let s2 := step (step s1 (.api (.init j ms after))) (.api (.enable j))
-      let pool := j :: a.pool
-      expectLine { a with s := s2, pool := pool, tags := a.tags ++ ["pool"] } ("P ret=1 en=" ++ bitsOf s2 pool) "pool new"
+      -- TimerPool::doAfter / doEvery: the model's `Pool.doAfter` / `Pool.doEvery` (= step (.api (.doAfter ms sc)))
+      let (s', _tok) := if after then Pool.doAfter a.s ms sc else Pool.doEvery a.s ms sc
+      expectLine { a with s := s', tags := a.tags ++ ["pool"] } ("P ret=1 en=" ++ a.bits s') "pool new"
+  | .pat tp sc =>
+      match Pool.doAt a.s a.wall tp sc with
+      | some (s', _tok) => expectLine { a with s := s', tags := a.tags ++ ["pool", "doAt"] } ("P ret=1 en=" ++ a.bits s') "pool doAt"
+      | none => expectLine a "bad-op" "doAt in the past"
+  | .wall d => expectLine { a with wall := a.wall + d, tags := a.tags ++ ["walljump"] } "P wall" "wall clock jump"
   | .pcancel k =>
-      let live := a.pool.contains k && (a.s.obj k).alive
-      let s' := if live then step (step a.s (.api (.disable k))) (.api (.destroy k)) else a.s
-      expectLine { a with s := s' } ("P ret=" ++ (if live then "1" else "0") ++ " en=" ++ bitsOf s' a.pool) "pool cancel"
+      let (s', r) := Pool.cancel a.s k
+      expectLine { a with s := s' } ("P ret=" ++ boolStr r ++ " en=" ++ a.bits s') "pool cancel"
   | .pcleanup =>
-      let s' := a.pool.foldl (fun st k => step (step st (.api (.disable k))) (.api (.destroy k))) a.s
-      expectLine { a with s := s' } ("P ret=1 en=" ++ bitsOf s' a.pool) "pool cleanup"
+      let s' := Pool.cleanup a.s
+      expectLine { a with s := s' } ("P ret=1 en=" ++ a.bits s') "pool cleanup"
   | .api act_ =>
       let (s', r) := act a.s act_
-      expectLine { a with s := s' } ("P ret=" ++ (if r then "1" else "0") ++ " en=" ++ bitsOf s' a.pool) "api result"
+      expectLine { a with s := s' } ("P ret=" ++ boolStr r ++ " en=" ++ a.bits s') "api result"
   | .adv d =>
       let s1 := step (step a.s (.advance d)) .beginPass
-      let a1 := firePass { a with s := s1 } []
+      let a1 := firePass { a with s := s1, wall := a.wall + d } []
       if a1.err.isSome then a1 else
       if !valid a1.s .endPass then
         let due := a1.s.timers.filter fun r => r.expired ≤ a1.s.passNow.getD 0
@@ -160,7 +248,7 @@ def stepOp (a : TAcc) (line : String) : TAcc :=
         let s2 := step a1.s .endPass
         let fired := a1.s.log.length - a.s.log.length
         let tg := if fired = 0 then "pass0" else if fired = 1 then "pass1" else "passN"
-        expectLine { a1 with s := s2, tags := a1.tags ++ [tg] } ("P ret=1 en=" ++ bitsOf s2 a1.pool) "after pass"
+        expectLine { a1 with s := s2, tags := a1.tags ++ [tg] } ("P ret=1 en=" ++ a1.bits s2) "after pass"
 
 structure DS where
   ops : Array String := #[]
